@@ -31,12 +31,18 @@ Oracles (what the statement says, nothing more)
 * Interpolation: ``RBFRegressor``/``TPSRegressor`` with ``smooth=0`` (the only regressors documented as
   interpolating) reproduce the learning outputs.  Bound: the solve A w = y by LU with partial pivoting and the
   evaluation A w are backward stable, |A w - y| <= c N eps (|A|_inf |w|_inf + |y|); c = 32; mapped through the
-  output transformer with a finite-difference Lipschitz bound of ``inverse_transform``.
-* Lossless transformers: ``inverse_transform(transform(x)) = x`` within first-order propagated rounding
-  (64 eps (|x| + |J_inv| (|t| + magnitude of the fitted data))), ``compute_jacobian`` / ``compute_jacobian_inverse``
-  against the same Richardson differences of ``transform`` / ``inverse_transform``.
+  output transformer with a finite-difference Lipschitz bound of ``inverse_transform``, plus the *measured* round trip
+  of the output transformer on the learning outputs (whether that round trip is acceptable is the business of the
+  transformer family, not of this oracle).
+* Lossless transformers: ``inverse_transform(transform(x)) = x`` within first-order propagated rounding: the error of
+  t = T(x) (64 eps x the terms of its linearisation and the fitted magnitudes + 10 x the measured noise of T) through
+  |J(T^-1)| (from differences of T^-1 *and* from |J(T)^-1|) + 10 x the measured noise of T^-1.  A point is only decided
+  when this propagated rounding leaves 3 digits (otherwise "ill-conditioned", nothing claimed).
+  ``compute_jacobian`` / ``compute_jacobian_inverse`` against the same Richardson differences of ``transform`` /
+  ``inverse_transform``; any result that broadcasts to (n, k, k) is accepted (the empty Pipeline returns eye(k)).
 * ``SurrogateDiscipline.execute`` / ``linearize`` are **bitwise** equal to ``predict`` / ``predict_jacobian`` of the
-  wrapped model for the same dictionary input; dictionary and array forms of the model agree bitwise.
+  wrapped model for the same dictionary input; dictionary and array forms of the model agree bitwise;
+  ``linearization_mode`` is AUTO exactly when the model offers a Jacobian.
 
 Oracle boundaries
 
@@ -44,18 +50,27 @@ Oracle boundaries
   have no ``compute_jacobian``, per-variable transformers, soft MOE, non-Euclidean RBF norm, callable kernel without
   ``der_function``): accepted, counted as outcome, only the non-Jacobian oracles run.  ``SurrogateDiscipline`` then uses
   finite differences and its Jacobian is not compared.
-* ``PCERegressor`` with an input transformer is rejected by its constructor (documented ``ValueError``): accepted.
+* ``PCERegressor`` with an input transformer is rejected by its constructor (documented ``ValueError``), also through
+  ``SurrogateDiscipline("PCERegressor", data)`` whose default transformer has one: accepted.
+* ``PCERegressor`` forwards OpenTURNS' gradient, which is exact to about 6 digits only (see ``LIB_GRADIENT_RTOL``).
+* A training run that dies inside the third-party library (OpenTURNS' LARS selecting an empty basis, kriging multi-start
+  failing on constant transformed outputs) yields no fitted model: outcome, not violation.
 * Box-Cox needs strictly positive data: it is removed from the alphabet of a group whose learning data (or, for
-  inputs, query stencil) is not positive; non-finite predictions (inverse Box-Cox outside its domain) make a query
-  point uncheckable, not wrong.
+  inputs, query stencil) is not positive, and from every pipeline position that follows a member producing non-positive
+  data; non-finite predictions (inverse Box-Cox outside its domain) make a query point uncheckable, not wrong.  Power
+  transforms and whitening of constant columns are not lossless and not applicable.
+* Power transforms of data with a small relative spread get extreme exponents and are numerically non-invertible
+  (a whole stencil maps to one double): reported as ill-conditioned, never as a violation.
 * MOE with hard classification is piecewise: query points whose stencil is not classified uniformly are skipped.
 * A regressor chain / OpenTURNS kriging are not documented as interpolating: no interpolation oracle for them.
 * Lossy reductions (PCA with fewer components than features) are outside the statement.
 * How a ``Pipeline`` fits its members (each on the *untransformed* data) is not constrained by the statement.
 
-When a case with transformers fails, the failing invariant is re-tested on the same case with the transformers
-removed (both, then each) and the violation is attributed to the simplest configuration that still fails, so the
-signature (regressor class + kernel/setting + transformer classes + invariant) names the defect site.
+When a case with transformers fails, the same case is re-run with the transformers removed (both, then each) and the
+violations of the simplest configuration that still fails are reported; if only the full case fails, its transformers
+are tested alone on the learning data and, when they break their own invariants, the failure is reported under the
+transformer's signature.  The signature (regressor class + kernel/setting + transformer classes + invariant) therefore
+names the defect site, and one defect gives a handful of signatures instead of one per product cell.
 """
 from __future__ import annotations
 
